@@ -26,7 +26,7 @@ import (
 
 func decEID(r *simk.Rand) EndpointID {
 	if r.Bool(0.35) {
-		return MustNewEndpointID(fmt.Sprintf("ipn:%d.%d", r.Range(1, 70000), r.Range(0, 70000)))
+		return MustNewEndpointID(fmt.Sprintf("ipn:%d.%d", r.Range(1, 70000), r.Range(1, 70000)))
 	}
 	if r.Bool(0.1) {
 		return DtnNone()
